@@ -8,7 +8,7 @@
    The other message-level statements (other parameter kinds, constant prefix,
    required/free) are correspondence + oracle only.  Known finding: condensed bit masks (see known_findings.json). *)
 From Coq Require Import ZArith List Bool.
-From OV Require Import Base.Bytes Base.Wire Generated Model.Str Model.Codec Proofs.BytesProofs Proofs.AtomicProofs Proofs.CodecProps Proofs.FlatProofs.
+From OV Require Import Base.Bytes Base.Wire Generated Model.Str Model.Codec Proofs.BytesProofs Proofs.AtomicProofs Proofs.CodecProps Proofs.FlatProofs Proofs.FlatEncodeProofs Proofs.TreeProofs Proofs.TreeWireProofs.
 Import ListNotations.
 Open Scope Z_scope.
 
@@ -40,3 +40,47 @@ Theorem C08_flat_length_is_static : forall fl vv msg w,
   static_bits_msg (map mkp fl) = Some (8 * blen msg).
 Proof. exact flat_length_is_static. Qed.
 Print Assumptions C08_flat_length_is_static.
+
+(* ---------- required / free parameters of flat messages (Proofs/FlatEncodeProofs.v) ---------- *)
+(* the parameters reported as required (filter is_required, what CodecWire returns) are exactly the VALUE
+   parameters; a dictionary which lacks one of them is never accepted, whatever else it holds ... *)
+Theorem C08_flat_required_needed : forall fl kv x,
+  (forall y, In y fl -> fnf y) -> In x fl -> is_required (mkp x) = true -> lookup (fname x) kv = None ->
+  encode_msg (map mkp fl) None (VDict kv) = Err ERej.
+Proof. exact flat_required_needed. Qed.
+Print Assumptions C08_flat_required_needed.
+
+Theorem C08_flat_required_are_the_value_parameters : forall x, is_required (mkp x) = is_value x.
+Proof. exact required_is_value. Qed.
+Print Assumptions C08_flat_required_are_the_value_parameters.
+
+(* ... and a dictionary which holds exactly the required ones (no constant) is accepted whenever the values fit:
+   this is the encoding half of C01_flat_message_roundtrip, restated *)
+Theorem C08_flat_required_suffice : forall fl vv,
+  (forall x, In x fl -> fits x (vv (fname x))) -> NoDup (map fname fl) ->
+  exists msg, encode_msg (map mkp fl) None (VDict (fvals vv (filter is_value fl))) = Ok (msg, false).
+Proof. intros fl vv H ND. destruct (flat_roundtrip fl vv H ND) as (m & E & _). now exists m. Qed.
+Print Assumptions C08_flat_required_suffice.
+
+(* ---------- structures nested to any depth (Proofs/TreeWireProofs.v) ---------- *)
+(* the static bit length reported for a message whose parameters are standard-length parameters or STRUCTUREs of
+   such, recursively, is 8 x the bytes of its leaves ... *)
+Theorem C08_nested_static_length : forall ts d,
+  (forall t, In t ts -> (wdepth t <= d)%nat /\ tpos t) ->
+  let ps := map w_p (map t_w ts) in
+  (d + 2 <= fuel_of ps)%nat ->
+  static_bits_msg ps = Some (8 * fold_right (fun t a => tbytes t + a) 0 ts).
+Proof. exact tree_static_length. Qed.
+Print Assumptions C08_nested_static_length.
+
+(* ... and every encoding occupies exactly that many bits *)
+Theorem C08_nested_length_is_static : forall ts d,
+  (forall t, In t ts -> (wdepth t <= d)%nat /\ wwf t) ->
+  NoDup (map (fun t => pname (w_p (t_w t))) ts) ->
+  let ws := map t_w ts in
+  let ps := map w_p ws in
+  (3 * d + 3 <= fuel_of ps)%nat ->
+  exists msg, encode_msg ps None (VDict (in_dict (map as_m ws))) = Ok (msg, false) /\
+              static_bits_msg ps = Some (8 * blen msg).
+Proof. exact tree_length_is_static. Qed.
+Print Assumptions C08_nested_length_is_static.
